@@ -62,7 +62,14 @@ class FuncInfo:
 
     @property
     def qualname(self) -> str:
-        return f'{self.module.short}.{self.short}'
+        # (a method re-homed from a dissolved mixin is named by the class that has it; ``module`` stays the module its names resolve in)
+        home = getattr(self, 'home', None)
+        if home is None and self.parent is not None:
+            top = self
+            while top.parent is not None:
+                top = top.parent
+            home = getattr(top, 'home', None)
+        return f'{(home or self.module).short}.{self.short}'
 
     def decorator_names(self) -> List[str]:
         out = []
@@ -276,12 +283,75 @@ class Program:
         for m in self.modules.values():
             for c in m.classes.values():
                 c.bases = [self._resolve_base(m, b) for b in c.base_exprs]
+        self._rehome_new_bases()
         self._subclasses: Dict[ClassInfo, List[ClassInfo]] = {}
         for c in self.all_classes():
             c.mro()
         for c in self.all_classes():
             for p in c.mro_classes()[1:]:
                 self._subclasses.setdefault(p, []).append(c)
+
+    def _rehome_new_bases(self) -> None:
+        """A class that is NEW with respect to the tree the rules were written against (not in the baseline's class list), has no constructor of its own and is
+        there only to be inherited from -- a mixin or private base that a group of methods was moved into -- is dissolved: each direct subclass gets the methods and
+        class attributes it does not override (names inside them keep resolving in the module they are written in), and inherits from the new class's own bases in its
+        place.  That is what inheritance does at run time; the rules keep naming the methods by the class that HAS them."""
+        import copy as _copy
+        from . import alpha
+        known = alpha.baseline_classes()
+        if known is None:
+            return
+        known = set(known)
+        self.rehomed: List[str] = []
+        for m in list(self.modules.values()):
+            for M in list(m.classes.values()):
+                q = f'{m.short}.{M.name}'
+                if q in known or '__init__' in M.methods or M.node.keywords or M.node.decorator_list:
+                    continue
+                subs = [c for c in self.all_classes() if any(b is M for b in c.bases)]
+                if not subs or any(isinstance(b, ClassInfo) and b.node.keywords for b in M.bases):
+                    continue
+                # (an enum, an exception, a dataclass-like holder is instantiated, not inherited from: only classes every use of which is "being a base")
+                used_otherwise = False
+                for mod2 in self.modules.values():
+                    for n in ast.walk(mod2.tree):
+                        if isinstance(n, ast.Call) and isinstance(n.func, (ast.Name, ast.Attribute)) and (n.func.id if isinstance(n.func, ast.Name) else n.func.attr) == M.name:
+                            used_otherwise = True
+                if used_otherwise:
+                    continue
+                for S in subs:
+                    for name, g in M.methods.items():
+                        if name in S.methods:
+                            continue
+                        node = _copy.deepcopy(g.node)
+                        f2 = FuncInfo(node, g.module, S, None)
+                        f2.home = S.module   # type: ignore[attr-defined]
+                        S.methods[name] = f2
+                        S.module.all_funcs.append(f2)
+                        self._index_nested(f2, g.module)
+                    for a_, v_ in M.attrs.items():
+                        S.attrs.setdefault(a_, v_)
+                    for a_, v_ in M.annots.items():
+                        S.annots.setdefault(a_, v_)
+                    new_bases = []
+                    for b in S.bases:
+                        if b is M:
+                            new_bases.extend(x for x in M.bases if x not in new_bases and x not in S.bases and not (isinstance(x, str) and x.split('.')[-1] == 'object'))
+                        else:
+                            new_bases.append(b)
+                    S.bases = new_bases
+                    S._mro = None
+                drop = {id(g) for g in M.methods.values()}
+
+                def nested_ids(fi):
+                    for h in list(fi.nested.values()) + list(fi.lambdas):
+                        drop.add(id(h))
+                        nested_ids(h)
+                for g in M.methods.values():
+                    nested_ids(g)
+                m.all_funcs[:] = [f for f in m.all_funcs if id(f) not in drop]
+                del m.classes[M.name]
+                self.rehomed.append(q)
 
     # ------------------------------------------------------------------ indexing
     def _index_module(self, m: Module) -> None:
@@ -510,9 +580,16 @@ class Program:
                 cur: Optional[FuncInfo] = None
                 if rest[0] in m.classes:
                     c = m.classes[rest[0]]
-                    if len(rest) < 2 or rest[1] not in c.methods:
+                    if len(rest) < 2:
                         break
-                    cur = c.methods[rest[1]]
+                    if rest[1] not in c.methods:
+                        # the method the class HAS, wherever along its bases it is written (a group of private methods moved into a mixin / private base class)
+                        inherited = c.lookup(rest[1])
+                        if inherited is None:
+                            break
+                        cur = inherited
+                    else:
+                        cur = c.methods[rest[1]]
                     rest = rest[2:]
                 elif rest[0] in m.functions:
                     cur = m.functions[rest[0]]
